@@ -31,7 +31,7 @@ pub struct Scalar {
 
 impl fmt::Debug for Scalar {
     fn fmt(&self, f: &mut fmt::Formatter<'_>) -> fmt::Result {
-        if self.tag == 0 && self.l[0] != MAGIC_U64 {
+        if self.tag == 0 && self.l[0] != MAGIC_U64 && !self.l.iter().any(|x| parse_limb(&x.to_le_bytes()).is_some()) {
             write!(f, "Sc({})", fq::to_dec(&fq::reduce(&self.l)))
         } else {
             write!(f, "Sc(t{})", self.term())
@@ -71,14 +71,36 @@ impl Scalar {
             return self.l[0] as Tid;
         }
         if self.l[0] == MAGIC_U64 {
-            // `from_raw` applied to the limbs of a token (e.g. a digest turned into a scalar)
+            // `from_raw` applied to the limbs of a token (a scalar's own encoding read back)
             let b = fq::to_le_bytes(&self.l);
             let (k, id, _) = untoken(&b).expect("token");
             return match k {
                 K_SCALAR => id,
-                K_DIGEST => var_node(id),
                 _ => panic!("symex: from_raw on a non-scalar token (kind {})", k),
             };
+        }
+        // `from_raw` applied to 64-bit words some of which are limbs of 256-bit blobs (a digest turned into a scalar):
+        // value = sum_k word_k * 2^(64k)  (mod q)
+        let limbs: Vec<Option<(u32, u8)>> = self.l.iter().map(|x| parse_limb(&x.to_le_bytes())).collect();
+        if limbs.iter().any(|x| x.is_some()) {
+            if let (Some((v, 0)), Some((v1, 1)), Some((v2, 2)), Some((v3, 3))) = (limbs[0], limbs[1], limbs[2], limbs[3]) {
+                if v == v1 && v == v2 && v == v3 {
+                    return var_node(v);
+                }
+            }
+            let mut acc = konst(fq::ZERO);
+            let mut w = fq::ONE; // 2^(64k) mod q
+            let two64 = fq::reduce(&[0, 1, 0, 0]);
+            for k in 0..4 {
+                let word = match limbs[k] {
+                    Some((v, i)) => mk(Node::Limb(v, i)),
+                    None => konst([self.l[k], 0, 0, 0]),
+                };
+                let term = mk(Node::Mul(word, konst(w)));
+                acc = mk(Node::Add(acc, term));
+                w = fq::mul(&w, &two64);
+            }
+            return acc;
         }
         konst(self.l)
     }
